@@ -289,8 +289,17 @@ class Interp:
         if "onmatch" in tq:
             rest = self._rest_matches(self.ci)
         if tq and ({"increase", "decrease"} & set(tq)):
-            if y is not None and num(y) is None or (x is not None and num(x) is None):
+            if (y is not None and num(y) is None) or (x is not None and num(x) is None):
                 raise Undefined("increase/decrease on non-numbers")
+            if x is not None and y is not None and (isinstance(x, str) or isinstance(y, str)):
+                # cells are text: the docs do not say whether '10' > '9' is decided as
+                # numbers or as text; only cases where both orders agree are defined
+                nx, ny = num(x), num(y)
+                sx, sy = S(x), S(y)
+                if (nx < ny) != (sx < sy) or (nx > ny) != (sx > sy) or not (isinstance(x, str) and isinstance(y, str)):
+                    if not (isinstance(x, str) and isinstance(y, str)):
+                        raise Undefined("increase/decrease between text and a number")
+                    raise Undefined("increase/decrease on numeric text whose text order differs")
             yy = None if y is None else num(y)
             xx = None if x is None else num(x)
             write, votes, tol = self._decide_assign(tq, xx, yy, rest)
@@ -402,8 +411,11 @@ class Interp:
         st = self.vars.setdefault(nm, [])
         if not isinstance(st, list):
             raise Undefined("push to a non-stack variable")
-        if (distinct or "distinct" in quals) and v in st:
-            return NEUTRAL
+        if (distinct or "distinct" in quals):
+            if isinstance(v, float) and v != v:
+                raise Undefined("push.distinct of nan")
+            if v in st:
+                return NEUTRAL
         if "notnone" in quals:
             if is_empty(v):
                 if not st:
@@ -671,6 +683,8 @@ class Interp:
             v = num(self.val(a))
             if v is None:
                 raise Undefined("arithmetic on a non-number")
+            if v != v:
+                raise Undefined("nan as an operand")
             out.append(v)
         return out
 
@@ -873,6 +887,8 @@ class Interp:
     def _order(self, a, b):
         """-> (a, b) comparable pair or raises Undefined"""
         na, nb = num(a), num(b)
+        if (na is not None and na != na) or (nb is not None and nb != nb):
+            raise Undefined("ordering nan")
         if na is not None and nb is not None:
             return float(na), float(nb)
         if isinstance(a, str) and isinstance(b, str) and na is None and nb is None:
